@@ -512,6 +512,7 @@ func (C19) Run(t *testing.T, sc *core.Scenario, res *core.Result) {
 		clientOpUp[ci] = append(clientOpUp[ci], ui)
 	}
 	runner := newYgRunner(clients)
+	runner.HandlerMark = ").SegmentHandlerFunc("
 	ygSetCurrent(runner)
 	runner.Start()
 	type stepRec struct {
